@@ -1,0 +1,11 @@
+//go:build !verif
+
+package ast
+
+func (cw *CodeWriter) vtrace(op, arg string) func() { return verifNoop }
+
+func (cw *CodeWriter) vtracePos(op string, line, col int, name string) func() { return verifNoop }
+
+func (cw *CodeWriter) vtraceList(op string, list []string) func() { return verifNoop }
+
+func verifNoop() {}
